@@ -935,6 +935,30 @@ def programs(tier, seed, ci, nc, count=3000, ops=('render', 'pvisit', 'ptruth', 
 STREAMS['programs'] = programs
 
 
+def programs_hint(tier, seed, ci, nc, count=3000):
+    """programs whose wrapper is decorated with modifiers.posoargs / kwoargs: the hint route of discovery"""
+    from . import progs
+    rng = _rng(seed, 'programs_hint', ci)
+    for _ in range(count // nc):
+        p = progs.rand_prog(rng)
+        if p['route'] in ('self', 'param') or not p['params']:
+            continue
+        ps = list(p['params'])
+        k = rng.randint(0, len(ps))
+        P = tuple(ps[:k]) if rng.random() < 0.7 else tuple(rng.sample(ps, rng.randint(0, len(ps))))
+        rest = [x for x in ps if x not in P] if rng.random() < 0.85 else ps
+        W = tuple(rng.sample(rest, rng.randint(0, len(rest))))
+        if rng.random() < 0.05:
+            W = W + ('zz',)          # a name the function does not have
+        if not P and not W:
+            continue
+        p = dict(p, hintP=P, hintW=W)
+        yield ('pautoh', p)
+
+
+STREAMS['programs_hint'] = programs_hint
+
+
 def progexec(tier, seed, ci, nc, count=2000, ops=('progexec', 'declared', 'variants')):
     from . import progs
     rng = _rng(seed, 'progexec', ci)
